@@ -3,7 +3,7 @@
 import json, sys, os
 V = os.path.dirname(os.path.dirname(os.path.abspath(__file__)))
 HOOK_COMMITS = ["cd80d8c"]
-FIX_COMMITS = ["19db2e0"]
+FIX_COMMITS = ["19db2e0", "612f831", "571a0e7", "96684bc", "f012a8c", "eccf4bb"]
 SIM_NOTE = ("Trusted base: the harness simulator (virtual clock + deterministic rand via the verif-hooks feature, simulated "
             "network whose per-packet fates are a pure function of (seed, link, per-link counter), strict request-executing game, "
             "30-line reference model of the delayed input stream) and proptest 1.11. Absence is not established: the claim is "
@@ -20,6 +20,20 @@ CHECKS = {
  "C14": dict(cat="exploration", ref="§6 C14", technique="property-based round-trip testing (proptest + bounded-exhaustive small alphabets) and exhaustive/random decoder totality sweeps in supervised child processes with a counting allocator",
    text="Round trip: 200k (quick) / 1.5M (thorough) generated (reference, sequence) pairs biased to 0x00/0xFF runs plus inputs up to 65535 bytes plus a bounded-exhaustive sweep over alphabet {00,01,80,FF}. Totality: every byte string of length <= 3 against three references and tens of millions of random/mutated strings are decoded by the real decoder inside child processes under RLIMIT_AS with a counting allocator; a panic, an abort (process death, attributed by bisection) or a peak allocation above 4x128x65537 bytes is a violation. The defect this found on the pinned tree was repaired by a fix: commit; its inputs are replayed as regression cases.",
    note="Trusted base: proptest, the harness's counting global allocator and child-process supervisor; the codec is reached through the verif-hooks re-export of compression::{encode,decode}. The allocation bound (4 x 128 x (2+65535) bytes) is the harness's reading of 'a small multiple of what a legitimate packet can contain'."),
+ "C05": dict(cat="fault_enumeration", ref="§6 C05", technique="bounded-exhaustive fault placement (k=1 exhaustive, k=2 exhaustive in thorough / sampled in quick) plus proptest burst outages, with a bounded-liveness oracle under the virtual clock",
+   text="Fault enumeration: for 72 base configurations (windows 0/1/2/8, delays, latencies, 2 players / 2 players+spectator built with the same window / 3 players) every single fault (drop, duplicate, +300 ms) on each of the M packets after a seeded offset on every directed link, every pair of faults within 8 packets (thorough), and random burst outages/loss phases; after the faults a 6 s clean phase must show every player and spectator session Running and advancing, no Disconnected event, C01-C03 clauses intact and the spectator stream identical to the host's. This is the level at which 'any lost acknowledgement, in any protocol state' can be decided short of a proof: explicit enumeration of fault placements with the clock under harness control."),
+ "C06": dict(cat="exploration", ref="§6 C06", technique="property-based testing of host+spectator topologies; oracle = host's final confirmed timeline, per-call catch-up rule, metamorphic twin without spectators",
+   text="Generated host/spectator scenarios (slow and pausing spectators, all catch-up settings, loss/reorder, a player dying on the host side) compare every frame the spectator advanced with the host's final timeline (values and Disconnected flags), check contiguity, 'never beyond host.confirmed_frame()', the per-call step rule from frames_behind_host(), that errors never move the cursor, and that players' confirmed inputs are identical with and without spectators."),
+ "C07": dict(cat="fault_enumeration", ref="§6 C07", technique="enumeration of the moment of death x amount of in-flight input over 288 base configurations; exact event-instant predictor from poll instants and packet deliveries; final-timeline oracle",
+   text="Fault enumeration over the moment a remote dies (every tick of a 120-tick window in thorough, every 5th in quick) x how much of its last traffic still arrives x 288 configurations (rollback/lockstep, sparse, 1-2 players per side, spectator, latency, four timeout settings), plus explicit disconnect_player calls. The NetworkInterrupted/Disconnected instants and multiplicity are predicted exactly from the survivor's poll instants and the packet deliveries recorded by the simulated network; the survivor's final timeline must carry real inputs up to the last received frame and default/Disconnected afterwards, and its spectator must see the same."),
+ "C09": dict(cat="exploration", ref="§6 C09", technique="property-based testing (false-alarm half over C01's space with detection on) and enumeration of divergence frame x interval (detection half) with a deterministically diverging game",
+   text="False-alarm half: any DesyncDetected in thousands of generated deterministic-game scenarios (intervals 1..=12, sparse on/off, loss, rollbacks) is a violation. Detection half: for every interval 1..=12 and divergence frame 1..=200 one peer's state really diverges; every peer of a differing pair must report a frame in [F, F+2*interval] carrying the two checksums the games really saved, and nothing before F or between agreeing peers."),
+ "C10": dict(cat="fault_enumeration", ref="§6 C10", technique="enumeration of the moment of death x split of the dying peer's last packets between survivors in 3-4 peer sessions; cross-survivor agreement oracle after a settle phase; known finding keyed on an exact signature",
+   text="Fault enumeration over 3-4 peer rollback sessions: moment of death x how many of the dying peer's last packets one survivor misses. After a settle phase all survivors must be alive, have identical values/Disconnected flags for the dropped player and identical states on every frame. On the pinned tree every case in which the survivors really hold different amounts of input panics (two signatures, recorded as known findings: not a small repair); the check therefore establishes 'no violation other than the listed ones' and full agreement whenever the survivors' views coincide."),
+ "C11": dict(cat="exploration", ref="§6 C11", technique="stateful property-based testing: generated sequences of set_input_delay calls inside simulated sessions, judged against a reference model of the delayed input stream on owner, remotes and spectators",
+   text="Generated sequences of 1-8 delay changes (before the first frame, in quick succession, while stalled, several local players with different delays, spectators attached) inside C01-style scenarios; the owner's, every remote's and every spectator's inputs must equal the reference model, nothing may panic, stay stranded in the outgoing buffer or stop advancing. Two genuine defects found this way were repaired by fix: commits and are replayed as regression cases."),
+ "C12": dict(cat="exploration", ref="§6 C12", technique="property-based testing of lossy/duplicating handshakes with forged stray replies (grammar + nonce ledger), enumeration of silence lengths around notify/timeout with an exact event predictor, poll-only and never-drained scenarios",
+   text="Per-address event grammar and a ledger of matched sync nonces under generated loss/duplication/reordering and injected stray, replayed and foreign replies; bounded enumeration of silence periods in 10 ms steps around the notify delay and the timeout for four timeout settings, three poll cadences and spectators, with the exact Interrupted/Resumed/Disconnected sequence predicted from poll instants and deliveries; 30 s poll-only runs with default timeouts; never-drained sessions for the 100-entry bound. Two genuine defects were repaired by fix: commits."),
  "C13": dict(cat="exploration", ref="§6 C13", technique="bounded-exhaustive enumeration of SyncTest configurations and of perturbation placements (frame x simulation-index pattern) with a deterministic / deliberately non-deterministic game",
    text="Bounded-exhaustive: every builder configuration in players 1..=4 x window 1..=10 x check distance 0..=11 x delay {0,1,3,7} x sparse (invalid ones must be rejected, valid ones run 120 frames with a deterministic game and must never report a mismatch, with C02's executor and an input oracle), plus every placement of a non-deterministic step (frame F x which simulations of F differ) for check distances >= 2, where detection must come within check_distance+2 frames naming frame F+1. One genuine defect is recorded as a known finding (first-simulation-only non-determinism is never compared)."),
 }
